@@ -7,7 +7,12 @@ import NibabelModel.Lemmas.C20_Count
 import NibabelModel.Lemmas.C20_Sites
 import NibabelModel.Lemmas.C20_GenFuncs
 /-! Props/C20 — property theorems for C20 (PAR/REC volumes are assembled by slice labels, not by
-    record order).  Helper lemmas: Lemmas/C20_Sort, C20_Vol, C20_Strict, C20_Load. -/
+    record order).  Helper lemmas: Lemmas/C20_Sort, C20_Vol, C20_Strict, C20_Load, C20_Sites (call-site
+    refinement), C20_GenFuncs (translated `vol_numbers`, tables read off the source).
+    Sections 1-5 speak about the one-list specification `load`; section 6 proves that the call-site
+    model `loadSites` (what the driver runs against the real loader) computes exactly `load`, section 7
+    gives the scale factors their numeric meaning under the guard SS ≠ 0 ∧ RS ≠ 0, section 8 ties
+    `vol_numbers`, the sort keys and the label keys to the current source text. -/
 namespace Nb.C20
 
 /-! ### concrete data used by the non-vacuity examples and the counterexample -/
